@@ -16,6 +16,10 @@ FUNCS = ['_node_bit', 'ReachabilityAnalyzer::add_node', 'ReachabilityAnalyzer::a
 
 
 def build(repo):
+  return [build_matrix(repo), build_glue(repo)]
+
+
+def build_matrix(repo):
   T = Theory('C09')
   texts = []
   for q in FUNCS:
@@ -132,6 +136,102 @@ def build(repo):
   return T
 
 
+TG = 'pytype/typegraph/typegraph.cc'
+GLUE = [('CFGNode', 'CFGNode::ConnectTo'), ('CFGNode', 'CFGNode::id'), ('Program', 'Program::is_reachable')]
+# the view-level clause of add_connection proved in the first theory, restated over the abstract relation
+ADD_CONNECTION_VIEW = ('all(all((j in self.rel[i]) == ((j in old(self.rel)[i]) or ((src in old(self.rel)[i]) and (j in old(self.rel)[dst])))'
+                       ' for j in range(len(self.rel))) for i in range(len(self.rel)))')
+
+
+def build_glue(repo):
+  """Second theory: the typegraph.cc glue (CFGNode::ConnectTo, Program::is_reachable) over heap-allocated nodes.
+
+  The analyzer is abstract here: `rel[i]` = the set of j with R(i, j); add_connection / is_reachable are used
+  through the view-level clauses proved for reachable.cc in the first theory."""
+  T = Theory('C09')
+  per_class = {}
+  for cls, q in GLUE:
+    src, _ = cxxfront.lower_function(repo, TG, NS + q)
+    per_class.setdefault(cls, []).append(src)
+  text = ''
+  for cls, fns in per_class.items():
+    text += 'class %s:\n' % cls
+    for f in fns:
+      text += ''.join('  ' + l + '\n' for l in f.splitlines()) + '\n'
+  source.register_lowered(repo, TG, text)
+  T.lowered = text
+  NodeRef = S.Uninterp('CFGNodeRef')
+  ProgRef = S.Uninterp('ProgramRef')
+  RARef = S.Uninterp('AnalyzerRef')
+  Rel = S.Seq(S.SetOf(S.INT))
+  SeqN = S.Seq(NodeRef)
+  T.bind_heap(TG, 'CFGNode', NodeRef, collections.OrderedDict(
+      id_=S.INT, incoming_=SeqN, outgoing_=SeqN, program_=ProgRef, backward_reachability_=RARef))
+  T.bind_heap(TG, 'Program', ProgRef, collections.OrderedDict(backward_reachability_=RARef))
+  T.bind_heap(TG, 'ReachabilityAnalyzer', RARef, collections.OrderedDict(rel=Rel))
+  from engine.values import NONE
+  T.method_models[(ProgRef.name, 'InvalidateSolver')] = lambda ex, recv, a, k: NONE    # C08's subject; no effect on reachability state
+  me = RARef
+  c_add = Contract(TG, 'ReachabilityAnalyzer.add_connection', collections.OrderedDict(self=me, src=S.INT, dst=S.INT), verify=False,
+                   requires=['0 <= src and src < len(self.rel)', '0 <= dst and dst < len(self.rel)'],
+                   ensures=['len(self.rel) == len(old(self.rel))', ADD_CONNECTION_VIEW],
+                   heap_mutates=(('self', 'rel'),),
+                   note='view-level clause proved for reachable.cc::add_connection in the first theory (R\' = R u R(.,src) x R(dst,.))')
+  c_isr = Contract(TG, 'ReachabilityAnalyzer.is_reachable', collections.OrderedDict(self=me, src=S.INT, dst=S.INT), verify=False,
+                   requires=['0 <= src and src < len(self.rel)', '0 <= dst and dst < len(self.rel)'],
+                   ensures=['result == (dst in self.rel[src])'], result=S.BOOL,
+                   note='proved for reachable.cc::is_reachable in the first theory (result == R(src, dst))')
+  T.add(c_add)
+  T.add(c_isr)
+  T.method_models[(RARef.name, 'add_connection')] = lambda ex, recv, a, k: ex.call_contract(c_add, dict(self=recv, src=a[0], dst=a[1]), None)
+  T.method_models[(RARef.name, 'is_reachable')] = lambda ex, recv, a, k: ex.call_contract(c_isr, dict(self=recv, src=a[0], dst=a[1]), None)
+  T.inline.add((TG, 'CFGNode.id'))
+  T.assumptions += [
+      'second theory (typegraph.cc glue): CFGNode / Program / ReachabilityAnalyzer objects live in a heap (Burstall); pointers are references; '
+      'std::vector<CFGNode*> is a list; unique_ptr::operator-> is the owned object (A-MEM); Program::InvalidateSolver does not touch reachability state',
+      'the analyzer is abstract in the second theory: rel[i] = {j | R(i, j)}; add_connection and is_reachable are used through the view-level '
+      'clauses proved for reachable.cc in the first theory',
+      'the relation R kept by the analyzer is the BACKWARD relation: ConnectTo(a -> b) records (b, a); Program::is_reachable(src, dst) asks R(dst, src); '
+      'that its closure is the converse of the forward closure is the Lean lemma rtc_swap',
+  ]
+  inrange = lambda x: '0 <= %s.id_ and %s.id_ < len(%s.backward_reachability_.rel) and %s.id_ < 2147483647' % (x, x, x, x)
+  A = 'self.backward_reachability_'
+  refl_trans = ['all(i in %s.rel[i] for i in range(len(%s.rel)))' % (A, A),
+                'all(all(all(implies(j in %s.rel[i] and k in %s.rel[j], k in %s.rel[i]) for k in range(len(%s.rel))) for j in range(len(%s.rel)))'
+                ' for i in range(len(%s.rel)))' % (A, A, A, A, A, A),
+                # members of a row are node ids
+                'all(all(implies(j in %s.rel[i], 0 <= j and j < len(%s.rel)) for j in every("Int")) for i in range(len(%s.rel)))' % (A, A, A)]
+  out_inv = ('all(0 <= self.outgoing_[m].id_ and self.outgoing_[m].id_ < len(%s.rel) and (self.id_ in %s.rel[self.outgoing_[m].id_])'
+             ' for m in range(len(self.outgoing_)))' % (A, A))
+  T.add(Contract(
+      TG, 'CFGNode.ConnectTo', collections.OrderedDict(self=NodeRef, node=NodeRef),
+      requires=['self.backward_reachability_ == node.backward_reachability_', inrange('self'), inrange('node'),
+                '(self == node) == (self.id_ == node.id_)'] + refl_trans + [out_inv],
+      ensures=[
+          'len(%s.rel) == len(old(%s.rel))' % (A, A),
+          # the property at this level: after a.ConnectTo(b) the backward relation is the old one plus everything that follows from the
+          # edge (b, a) -- also when the call returns early (self edge, duplicate edge): then nothing new follows
+          'all(all((j in %s.rel[i]) == ((j in old(%s.rel)[i]) or ((node.id_ in old(%s.rel)[i]) and (j in old(%s.rel)[self.id_])))'
+          ' for j in range(len(%s.rel))) for i in range(len(%s.rel)))' % (A, A, A, A, A, A),
+          # every recorded forward edge is in the relation (what justifies the duplicate-edge early return next time)
+          out_inv,
+          'aux:implies(self != node, any(self.outgoing_[m] == node for m in range(len(self.outgoing_))))',
+      ],
+      asserts={'self.outgoing_ = vpush(self.outgoing_, node)': ['self.outgoing_[len(self.outgoing_) - 1] == node']},
+      loops={0: Loop(['same(self.outgoing_, old(self.outgoing_))', 'same(node.incoming_, old(node.incoming_))',
+                      'same(%s.rel, old(%s.rel))' % (A, A),
+                      'len(S_) == len(self.outgoing_)', 'all(S_[m] == self.outgoing_[m] for m in range(len(S_)))',
+                      'aux:all(self.outgoing_[m] != node for m in range(i))'], index='i', seq='S_')}))
+  T.add(Contract(
+      TG, 'Program.is_reachable', collections.OrderedDict(self=ProgRef, src=NodeRef, dst=NodeRef),
+      requires=['0 <= src.id_ and src.id_ < len(self.backward_reachability_.rel) and src.id_ < 2147483647',
+                '0 <= dst.id_ and dst.id_ < len(self.backward_reachability_.rel) and dst.id_ < 2147483647'],
+      ensures=['result == (src.id_ in self.backward_reachability_.rel[dst.id_])',
+               'same(self.backward_reachability_.rel, old(self.backward_reachability_.rel))'],
+      result=S.BOOL))
+  return T
+
+
 def extra_obligations(repo):
   """The closure lemmas: checked by Lean on every run (no sorry/axiom allowed)."""
   import os, re, subprocess, time
@@ -155,7 +255,7 @@ def extra_obligations(repo):
 
 
 SURROUND = ['cfg.cc wrappers (CPython C-API glue) for is_reachable/ConnectTo/NewCFGNode',
-            'typegraph.cc Program::NewCFGNode / CFGNode::ConnectTo / Program::is_reachable (next step)',
+            'typegraph.cc Program::NewCFGNode / CFGNode::ConnectNew (node ids dense and equal to the analyzer\'s; constructor): bounded native sweep only',
             'Variable::Prune, CanHaveCombination as users of reachability']
 NATIVE_IN_QUICK = True
 MUTANTS = [
@@ -170,6 +270,17 @@ MUTANTS = [
     dict(name='is_reachable_swapped', file=CC, old="return adj_[src][dst / 64] & _node_bit(dst) ? true : false;",
          new="return adj_[dst][src / 64] & _node_bit(src) ? true : false;"),
     dict(name='loop_skips_last_word', file=CC, old="for (int j = 0; j < size_; j++) {", new="for (int j = 0; j + 1 < size_; j++) {"),
+    # typegraph.cc glue (second theory)
+    dict(name='glue_connect_args_swapped', file=TG, old="this->backward_reachability_->add_connection(node->id(), this->id());",
+         new="this->backward_reachability_->add_connection(this->id(), node->id());"),
+    dict(name='glue_query_args_swapped', file=TG, old="return backward_reachability_->is_reachable(dst->id(), src->id());",
+         new="return backward_reachability_->is_reachable(src->id(), dst->id());"),
+    dict(name='glue_skip_when_forward_reachable', file=TG, old="  program_->InvalidateSolver();\n  node->incoming_.push_back(this);",
+         new="  program_->InvalidateSolver();\n  node->incoming_.push_back(this);\n  this->outgoing_.push_back(node);\n"
+             "  if (backward_reachability_->is_reachable(this->id(), node->id())) return;\n  if (false)"),
+    dict(name='glue_no_dup_check_harmless', file=TG, expect=2, old="    if (n == node) {\n      return;  // already connected\n    }", new="    if (n == node) {\n    }"),
+    dict(name='glue_connect_wrong_node', file=TG, old="this->backward_reachability_->add_connection(node->id(), this->id());",
+         new="this->backward_reachability_->add_connection(node->id(), node->id());"),
     dict(name='new_bit_or_assign_harmless', file=CC, expect=0,
          old="adj_[node][node / 64] = _node_bit(node);", new="adj_[node][node / 64] |= _node_bit(node);"),
 ]
